@@ -1,5 +1,7 @@
 import DendroModel.Model.C04
 import DendroModel.Model.C04State
+import DendroModel.Model.C04Root
+import DendroModel.Model.C04Diffs
 open DendroModel DendroModel.C04
 
 def parseRooted (s : String) : Option (Option Bool) :=
@@ -39,7 +41,7 @@ def histOut (st : TreeObj × TreeObj) : List Ev → List String
 
 def handle (ws : List String) : String :=
   match ws with
-  -- dist <rooting1> <rooting2> <tree1> <tree2>  ->  fp fn wrf euclid² | sorted missing(ref=tree1, cmp=tree2)
+  -- dist <rooting1> <rooting2> <tree1> <tree2>  ->  fp fn wrf euclid² ⌊2^60·euclid⌋ | sorted missing(ref=tree1, cmp=tree2)
   | "dist" :: r1 :: r2 :: rest =>
     match parseRooted r1, parseRooted r2, parseTree rest with
     | some r1, some r2, some (t1, rest2) =>
@@ -52,7 +54,17 @@ def handle (ws : List String) : String :=
         let m1 := edgeMap e1
         let m2 := edgeMap e2
         let (fp, fn) := fpfn s1 s2
-        s!"{fp} {fn} {optRat (wrf m1 m2)} {optRat (euclidSq m1 m2)} | " ++ " ".intercalate ((missing s1 s2).map toString)
+        let root : String := match euclidSq m1 m2 with | some w => toString (rootFix rootBits w) | none => "E"
+        s!"{fp} {fn} {optRat (wrf m1 m2)} {optRat (euclidSq m1 m2)} {root} | " ++ " ".intercalate ((missing s1 s2).map toString)
+      | _ => "bad-op"
+    | _, _, _ => "bad-op"
+  -- diffs <rooting1> <rooting2> <tree1> <tree2>  ->  E | `split:length1:length2` of every split of either tree, sorted by split
+  --   (the dictionary `_get_length_diffs(..., bipartition_length_diff_map=True)` returns)
+  | "diffs" :: r1 :: r2 :: rest =>
+    match parseRooted r1, parseRooted r2, parseTree rest with
+    | some r1, some r2, some (t1, rest2) =>
+      match parseTree rest2 with
+      | some (t2, []) => renderDiffs (lengthDiffsK (edgeMap (edgeRecs r1 t1)) (edgeMap (edgeRecs r2 t2)))
       | _ => "bad-op"
     | _, _, _ => "bad-op"
   -- sdist <updated 0|1> <ns1> <ns2> <rooting1> <rooting2> <enc1 0|1> <enc2 0|1> <cur1> <cur2> [<tree1 as last encoded>] [<tree2 as last encoded>]
